@@ -163,8 +163,10 @@ CHECKS["C06"] = {
         {"name": "seal", "pkg": "sm4", "run": "TestVX_C06", "public_files": SM4P + ["sm4/C06_pub_test.go"], "shards": 16, "env": {"VX_PART": "seal"}},
         {"name": "seal-armglue", "variant": "armglue", "pkg": "sm4", "run": "TestVX_C06", "public_files": SM4P + ["sm4/C06_pub_test.go"],
          "shards": 16, "env": {"VX_PART": "seal-armglue"}},
+        {"name": "seal-generic", "variant": "generic", "pkg": "sm4", "run": "TestVX_C06", "public_files": SM4P + ["sm4/C06_pub_test.go"],
+         "shards": 16, "env": {"VX_PART": "seal-generic"}},
     ],
-    "prepare": {"armglue": [["python3", "{verif}/tools/prep_armglue.py", "{repo}"]]},
+    "prepare": {"generic": [["python3", "{verif}/tools/prep_generic.py", "{repo}"]], "armglue": [["python3", "{verif}/tools/prep_armglue.py", "{repo}"]]},
     "deadline": {"quick": 200, "thorough": 3000},
 }
 
@@ -177,8 +179,10 @@ CHECKS["C10"] = {
          "shards": 8, "env": {"VX_PART": "buffers-gcm-armglue"}},
         {"name": "buffers-sum", "pkg": "sm3", "run": "TestVX_C10_Sum", "public_files": ["sm3/C10_pub_test.go"]},
         {"name": "inputs-sm2", "pkg": "sm2", "run": "TestVX_C10_SM2", "public_files": SM2P + ["sm2/C10_pub_test.go"]},
+        {"name": "buffers-gcm-generic", "variant": "generic", "pkg": "sm4", "run": "TestVX_C10_GCM", "public_files": SM4P + ["sm4/C10_pub_test.go"],
+         "shards": 8, "env": {"VX_PART": "buffers-gcm-generic"}},
     ],
-    "prepare": {"armglue": [["python3", "{verif}/tools/prep_armglue.py", "{repo}"]]},
+    "prepare": {"generic": [["python3", "{verif}/tools/prep_generic.py", "{repo}"]], "armglue": [["python3", "{verif}/tools/prep_armglue.py", "{repo}"]]},
 }
 
 CHECKS["C07"] = {
@@ -189,8 +193,10 @@ CHECKS["C07"] = {
         {"name": "open", "pkg": "sm4", "run": "TestVX_C07", "public_files": SM4P + ["sm4/C10_pub_test.go", "sm4/C06_pub_test.go", "sm4/C07_pub_test.go"], "shards": 16, "env": {"VX_PART": "seal"}},
         {"name": "open-armglue", "variant": "armglue", "pkg": "sm4", "run": "TestVX_C07",
          "public_files": SM4P + ["sm4/C10_pub_test.go", "sm4/C06_pub_test.go", "sm4/C07_pub_test.go"], "shards": 16, "env": {"VX_PART": "open-armglue"}},
+        {"name": "open-generic", "variant": "generic", "pkg": "sm4", "run": "TestVX_C07",
+         "public_files": SM4P + ["sm4/C10_pub_test.go", "sm4/C06_pub_test.go", "sm4/C07_pub_test.go"], "shards": 16, "env": {"VX_PART": "open-generic"}},
     ],
-    "prepare": {"armglue": [["python3", "{verif}/tools/prep_armglue.py", "{repo}"]]},
+    "prepare": {"generic": [["python3", "{verif}/tools/prep_generic.py", "{repo}"]], "armglue": [["python3", "{verif}/tools/prep_armglue.py", "{repo}"]]},
     "deadline": {"quick": 200, "thorough": 3000},
 }
 
@@ -198,9 +204,12 @@ CHECKS["C11"] = {
     "level": "exploration",
     "assumptions": ["page protection of the kernel + runtime/debug.SetPanicOnFault turn a stray access into a recoverable panic with Addr()",
                     "an access that stays inside a neighbouring mapped object is only visible in the flush placements, which is why every length is placed flush"],
+    "prepare": {"generic": [["python3", "{verif}/tools/prep_generic.py", "{repo}"]]},
     "parts": [
         {"name": "guard-asm", "pkg": "sm4", "run": "TestVX_C11_Asm", "kind": "internal", "files": ["sm4/C11_int_test.go"], "shards": 4},
         {"name": "guard-public", "pkg": "sm4", "run": "TestVX_C11", "public_files": SM4P + ["sm4/C10_pub_test.go", "sm4/C11_pub_test.go"], "shards": 16, "env": {"VX_PART": "seal"}},
+        {"name": "guard-public-generic", "variant": "generic", "pkg": "sm4", "run": "TestVX_C11", "public_files": SM4P + ["sm4/C10_pub_test.go", "sm4/C11_pub_test.go"],
+         "shards": 16, "env": {"VX_PART": "guard-public-generic"}},
     ],
     "deadline": {"quick": 200, "thorough": 2400},
 }
